@@ -62,3 +62,65 @@ Theorem C16_without_thread_in_key_threads_interfere :
   /\ g_loc (run w_next w_adv [1%nat; 0%nat] w_init) 0%nat = g_loc (run w_next w_adv [0%nat] w_init) 0%nat.
 Proof. exact without_thread_in_key_threads_interfere. Qed.
 Print Assumptions C16_without_thread_in_key_threads_interfere.
+
+(* thread generations: threads that ran and finished before thread i made its first step — whatever they
+   did, including the entries (un-awaited deduplicated tasks) they left in the shared dict when they
+   exited — do not change what i does: slot i and i's entries end as when i runs alone from the start *)
+Theorem C16_later_generation_unaffected : forall RO local (nr : RO -> local -> request)
+  (adv : RO -> local -> response -> local) (g : @global RO local) dead sch i,
+  count i dead = O ->
+  g_loc (run nr adv (dead ++ sch) g) i = g_loc (solo nr adv i (count i sch) g) i /\
+  owned i (g_dedup (run nr adv (dead ++ sch) g)) = owned i (g_dedup (solo nr adv i (count i sch) g)).
+Proof. exact later_generation_unaffected. Qed.
+Print Assumptions C16_later_generation_unaffected.
+
+(* the entries of a thread that makes no more steps (a dead thread) stay in the dict untouched *)
+Theorem C16_entries_of_dead_threads_stay : forall RO local (nr : RO -> local -> request)
+  (adv : RO -> local -> response -> local) (g : @global RO local) sch j,
+  count j sch = O -> owned j (g_dedup (run nr adv sch g)) = owned j (g_dedup g).
+Proof. exact entries_of_dead_threads_stay. Qed.
+Print Assumptions C16_entries_of_dead_threads_stay.
+
+(* what the thread component of the key has to be: ANY function of the thread that is injective over all
+   threads the process ever has (the Thread object is: `run` is `run_by (fun i => i)`) *)
+Theorem C16_any_injective_thread_component : forall RO local (nr : RO -> local -> request)
+  (adv : RO -> local -> response -> local) (ident : tid -> nat),
+  (forall a b, ident a = ident b -> a = b) ->
+  forall (g : @global RO local) sch i,
+  g_loc (run_by nr adv ident sch g) i = g_loc (run_by nr adv ident (repeat i (count i sch)) g) i /\
+  owned (ident i) (g_dedup (run_by nr adv ident sch g)) =
+  owned (ident i) (g_dedup (run_by nr adv ident (repeat i (count i sch)) g)).
+Proof. exact solo_equals_interleaved_by_injective_ident. Qed.
+Print Assumptions C16_any_injective_thread_component.
+
+Theorem C16_thread_object_is_the_identity_component : forall RO local (nr : RO -> local -> request)
+  (adv : RO -> local -> response -> local) sch (g : @global RO local),
+  run_by nr adv (fun i => i) sch g = run nr adv sch g.
+Proof. exact run_by_id. Qed.
+Print Assumptions C16_thread_object_is_the_identity_component.
+
+(* injectivity among the threads alive at the same time is not enough: a number that a later thread
+   inherits from a dead one (threads 0 and 1 are distinguished, thread 2 gets thread 1's number) hands the
+   dead thread's entry to the new thread; with the thread itself in the key the same schedule does not *)
+Theorem C16_reused_ident_in_key_leaks_across_lifetimes :
+  g_loc (run_by w_next w_adv reused_ident [1%nat; 2%nat] w_init) 2%nat
+    <> g_loc (run_by w_next w_adv reused_ident [2%nat] w_init) 2%nat
+  /\ g_loc (run w_next w_adv [1%nat; 2%nat] w_init) 2%nat = g_loc (run w_next w_adv [2%nat] w_init) 2%nat
+  /\ (forall a b, (a < 2)%nat -> (b < 2)%nat -> reused_ident a = reused_ident b -> a = b).
+Proof. exact reused_ident_in_key_leaks_across_lifetimes. Qed.
+Print Assumptions C16_reused_ident_in_key_leaks_across_lifetimes.
+
+(* the asynq instance (now with un-awaited deduplicated calls `Spec` / `OSpec` and profiler.reset()):
+   a thread started after the threads in `dead` have run and exited produces the traces it produces alone *)
+Theorem C16_asynq_traces_after_dead_threads : forall perf progs dead sch i, count i dead = O ->
+  l_trace (g_loc (trun (dead ++ sch) (init_global perf progs)) i) =
+  l_trace (g_loc (trun (repeat i (count i sch)) (init_global perf progs)) i).
+Proof. exact traces_after_dead_threads. Qed.
+Print Assumptions C16_asynq_traces_after_dead_threads.
+
+(* the generation-wise schedules evaluated by the correspondence (Threads.run_case) *)
+Theorem C16_asynq_generation_traces : forall perf progs sizes schs i,
+  l_trace (g_loc (trun (gen_schedule progs 0 sizes schs) (init_global perf progs)) i) =
+  l_trace (g_loc (trun (repeat i (count i (gen_schedule progs 0 sizes schs))) (init_global perf progs)) i).
+Proof. exact generation_traces. Qed.
+Print Assumptions C16_asynq_generation_traces.
